@@ -104,7 +104,11 @@ def run_common(owner, case):
     if case["kind"] == "random":
         for k in range(case["mols"]):
             try:
-                subj = W.Subject(case["seed"] * 131 + k, arch=case["arch"], small=(k % 3 == 0), families=["gauss", "uniform", "log_normal", "poisson", "gauss", "uniform", "schulz_zimm", "flory_schulz"], mean_units=[1.5, 3, 5, 8][k % 4])
+                # every third molecule gets forced extreme targets: negative, far below one unit, exactly a few units
+                forced = [-2.5, 0.02, 1.0, 3.0] if k % 3 == 2 else None
+                subj = W.Subject(case["seed"] * 131 + k, arch=case["arch"], small=(k % 3 == 0), families=["gauss", "uniform", "log_normal", "poisson", "gauss", "uniform", "schulz_zimm", "flory_schulz"], mean_units=[1.5, 3, 5, 8][k % 4], forced=forced)
+                if forced:
+                    cnt["subjects_extreme_targets"] += 1
             except ValueError:
                 cnt["subject_build_failed"] += 1
                 continue
